@@ -177,7 +177,10 @@ def run(chk, tier, seed):
     mk = patsets.mkpath
     paths = [mk([(L('a'),), (L('B'),)]), mk([(('star',),), (L('B'), ('star',))]), mk([(('gs',),), (L('A'),)]), mk([(L('a'),), (('gs',),)]), mk([(L('A'), L('b')), (('q',), L('c'))]),
              mk([(L('a'), ('q',), L('b'))]), mk([(L('a'), ('br', True, (('ch', 'x'),)), L('b'))]), mk([(L('a'), ('br', False, (('rng', 'a', 'z'),)), L('b'))]), mk([(L('a'),), (L('B'),)], trail=True),
-             mk([(('ext', '@', ((L('a'),), (L('B'),))),), (('star',),)]), mk([(L('a'), ('esc', '\\'), L('b'))]), mk([(('star',), ('q',), L('A'))]), mk([(L('a'),), (L('B'),)], lead=True)]
+             mk([(('ext', '@', ((L('a'),), (L('B'),))),), (('star',),)]), mk([(L('a'), ('esc', '\\'), L('b'))]), mk([(('star',), ('q',), L('A'))]), mk([(L('a'),), (L('B'),)], lead=True),
+             # runs of separators in the pattern count as one under the Windows rules too (plain, tripled, after a globstar, trailing)
+             mk([(L('a'),), (L('B'),)], dbl=True), mk([(('gs',),), (L('b'),)], dbl=True), mk([(L('a'),), (('star',),), (L('c'),)], dbl=True),
+             (L('a'), ('sep',), ('sep',), ('sep',), L('b')), (L('a'), ('sep',), ('sep',), ('sep',), ('sep',), L('B')), (L('a'), ('sep',), ('sep',)), (('star',), ('sep',), ('sep',), ('star',))]
     items = [(p, 'fnmatch', False) for p in names] + [(p, 'glob', False) for p in paths] + [(p, 'fnmatch', True) for p in names[::5]] + [(p, 'glob', True) for p in paths[::3]]
     # raw texts: escaped backslashes inside bracket expressions (a separator under the Windows rules), mixed with case
     rawtexts = ['a[\\\\]b', 'a[xY\\\\]b', 'a[!\\\\]b', '[\\\\a]*', 'a[\\\\][\\\\]b', '?(a[\\\\])B', 'a\\\\b', 'a[/]b', 'a[!/]b',
